@@ -33,7 +33,7 @@ MANIFEST = {
              "Spec/Newton.v): _newton_diff = divided differences, _compute_table stores them, __call__ returns y_j at every node "
              "and between the nodes the Horner value of the Newton form, which passes through all points and reproduces every "
              "polynomial of degree < n exactly (uniqueness of the interpolant); derivative() (n >= 3) returns the derivative of that Newton "
-             "form; ValueError outside the table; the constructor Interpolation(px, py) (two lists, ANY n in 2..64, any order) builds exactly that object independently of the order of the points, duplicates give ValueError.  Two tuples and the copy constructor: any n; the interleaved-scalar form evaluated symbolically on 3- and 4-point tables ONLY (property: "
+             "form; ValueError outside the table; the constructor Interpolation(px, py) (two lists, ANY n in 2..64, any order) builds exactly that object independently of the order of the points, duplicates give ValueError.  Two tuples, interleaved scalars and the copy constructor: any n as well (symbolic 3- and 4-point versions kept; property: "
              "2-9): every order of the points and every input form give the object with sorted abscissae and the divided "
              "differences, duplicates give ValueError (n = 3, two-list form); __call__/derivative of a symbolic 3-point table "
              "(n = 3 ONLY) pass through the points, equal the Lagrange parabola and its derivative, ValueError outside; binary64 "
@@ -56,9 +56,9 @@ EXPLANATION = ("root(): bracket invariant of the generated loop proved by induct
                "correspondence and the exact-rational search only.")
 CLAUSES = {
     "passes through every tabulated point": "proved [ideal, ANY n in 1..64 on the stored object (symbolic lists, abscissae pairwise >= tol apart): __call__ returns y_j at every x_j (C12_call_any; this is the |x - xi| < tol shortcut) AND the Newton polynomial it evaluates between the nodes passes through every point (C12_interpolates_any, Spec/Newton.v: Neville recursion for the Newton form, induction on n)]; n = 3 symbolic version C12_through_points; n = 2..9 searched (exact equality) + bit-exact correspondence",
-    "reproduces polynomials of degree < n (relative 1e-9)": "proved [ideal, ANY n in 1..64 (from the constructor arguments on for the two-list form, C12_constructor_any): _newton_diff = divided differences (C12_newton_diff_any), _compute_table stores them (C12_compute_table_any), __call__ between the nodes = Horner evaluation = Newton form NF (C12_call_any), and NF reproduces every polynomial of degree < n exactly at every x (C12_interpolates_any: a degree < n polynomial with n distinct zeros is 0)]; limits: exact real arithmetic (says nothing about the 1e-9 in binary64), x at least tol away from every node (closer than tol the node ordinate is returned), the model's recursion fuel bounds n by 64; input forms other than two lists proved for n = 3, 4 only; n = 2..9 by correspondence + search against exact Fraction Lagrange",
+    "reproduces polynomials of degree < n (relative 1e-9)": "proved [ideal, ANY n in 1..64 (from the constructor arguments on for the two-list form, C12_constructor_any): _newton_diff = divided differences (C12_newton_diff_any), _compute_table stores them (C12_compute_table_any), __call__ between the nodes = Horner evaluation = Newton form NF (C12_call_any), and NF reproduces every polynomial of degree < n exactly at every x (C12_interpolates_any: a degree < n polynomial with n distinct zeros is 0)]; limits: exact real arithmetic (says nothing about the 1e-9 in binary64), x at least tol away from every node (closer than tol the node ordinate is returned), the model's recursion fuel bounds n by 64; all float input forms (lists, tuples, interleaved scalars, copy) any n; n = 2..9 by correspondence + search against exact Fraction Lagrange",
     "derivative of that polynomial": "proved [ideal, ANY n in 3..64 on the stored object: the three nested generated loops of derivative() return the derivative (Coquelicot is_derive) of the Newton form through all n points, inside the table: C12_derivative_any; n = 2: slope of the chord, C12_derivative_two; symbolic n = 3 version C12_derivative]; exact real arithmetic; n = 2..9 searched",
-    "independent of the order of the points and of the input form": "proved [ideal, ANY n in 2..64, two-list form: Interpolation(px, py) for symbolic lists in any order is the object with strictly increasing abscissae, ordinates carried along, divided-difference table (C12_constructor_any: every generated loop of set(), _order_points, _compute_table), and two orders of the same points give the IDENTICAL object (C12_constructor_order_independent_any; _order_points alone for any n >= 1: C12_order_points_any, C12_order_independent_any)]; two tuples give the same object as two lists for any n in 2..64 and the copy constructor copies the fields of any table (C12_constructor_forms_any, C12_copy_any); the interleaved-scalar form is proved for n = 3 and 4 ONLY (C12_constructor_3/_4: all orders x 3 forms + copy give the identical object), the ordinates-only form Interpolation([y..]) is only searched; n = 2..9 all forms searched; call sequences copy/set searched (key copy-shares-state)",
+    "independent of the order of the points and of the input form": "proved [ideal, ANY n in 2..64, two-list form: Interpolation(px, py) for symbolic lists in any order is the object with strictly increasing abscissae, ordinates carried along, divided-difference table (C12_constructor_any: every generated loop of set(), _order_points, _compute_table), and two orders of the same points give the IDENTICAL object (C12_constructor_order_independent_any; _order_points alone for any n >= 1: C12_order_points_any, C12_order_independent_any)]; two tuples and interleaved scalars give the same object as two lists for any n in 2..64 and the copy constructor copies the fields of any table (C12_constructor_forms_any, C12_copy_any; symbolic n = 3, 4 versions C12_constructor_3/_4); NOT proved: the ordinates-only form Interpolation([y..]), mixed list/tuple arguments, the dropped dangling argument and Angle/int entries (searched); n = 2..9 all forms searched; call sequences copy/set searched (key copy-shares-state)",
     "abscissae outside the table refused with ValueError": "proved [ideal, ANY n: __call__ beyond the tolerance of every node and outside [x_0, x_(n-1)] gives ValueError (C12_refused_any, n >= 1), derivative immediately outside (C12_derivative_any, n >= 3); within tol of an end node __call__ returns that node's ordinate]; n = 3 symbolic version C12_refused; searched n = 2..9",
     "duplicated abscissae refused with ValueError": "proved [ideal, ANY n >= 2, two-list form: any pair of abscissae closer than tol gives ValueError (C12_duplicates_any: nested duplicate-test loops, first flagged pair in scan order)]; n = 3 symbolic version C12_duplicates; other input forms searched (exact and 5e-11-apart duplicates) + correspondence",
     "root(): returned abscissa inside [xl, xh] (ordered, clamped) with |interpolant| <= tol": "proved [ideal, ANY table, max_iter in 0..4999; partial correctness: termination with a root unproved - the outcome is such a float or ValueError, nothing else (OutOfFuel/TypeError/Unsupported excluded): C12_root_step (loop, fuel induction), C12_root_sound (entry paths in-table incl. xl = 0, reversed, reversed+outside, clamped-low, default; 'only xh above the table' not a separate theorem); callee assumption (__call__/derivative return float or ValueError) discharged for EVERY stored table of n = 3..64 points (C12_root_any: no assumption left; __call__/derivative proved total by loop induction) and for the symbolic 3-point table (C12_root_witness)]; proved [B64, explicit grid of 24 tables x all unequal limit pairs: C12_grid_b64, 756 roots found: C12_grid_found]",
